@@ -143,7 +143,7 @@ def htmlentityreplace_errors(ex):
         # Handle encoding errors
         bad_text = ex.object[ex.start : ex.end]
         text = _html_entities_escaper.escape(bad_text)
-        return (str(text), ex.end)
+        return (str(text, "ascii"), ex.end)
     raise ex
 
 
